@@ -603,6 +603,11 @@ func (o *oracle) projection() map[string]interface{} {
 		}
 	}
 	wal := map[string]string{}
+	for _, b := range []string{"b1", "b2"} {
+		for _, t := range []string{"ta", "tb"} {
+			wal[b+"/"+t] = "none"
+		}
+	}
 	for name, v := range snap {
 		if strings.HasPrefix(name, "sess/") {
 			_, _, idents, _ := walletOf(v)
